@@ -491,3 +491,75 @@ def reaching_defs(g: CFG, var):
             for s, _lab in g.succ[n]:
                 work.append(s)
     return IN
+
+
+def value_sources(f, g, name, at_node, module, depth=0, seen=None):
+    """Where can the value of variable `name`, as used by the statement containing AST node `at_node`, come from?  Follows reaching
+    definitions through plain copies (`a = b`), tuple packing / unpacking (`t = (a, b)`; `x, y = t`) and conditional expressions.
+    -> set of leaves: ("param", name) | ("expr", ast node) | ("elem", call/expr node, index) | ("loop", ast node) | ("unknown", ...)"""
+    import ast as _ast
+    seen = seen if seen is not None else set()
+    out = set()
+    if depth > 12:
+        return {("unknown", name)}
+    rd = reaching_defs(g, name)
+    for cn in g.of_stmt_containing(at_node, module):
+        for d in rd[cn]:
+            key = (id(d), name)
+            if key in seen:
+                continue
+            seen.add(key)
+            if d is g.entry:
+                out.add(("param", name))
+                continue
+            st = d.ast
+            if isinstance(st, _ast.Assign):
+                for tg in st.targets:
+                    out |= _sources_of_target(f, g, tg, st.value, name, st, module, depth, seen)
+            elif isinstance(st, _ast.AnnAssign) and st.value is not None:
+                out |= _sources_of_target(f, g, st.target, st.value, name, st, module, depth, seen)
+            elif isinstance(st, (_ast.For, _ast.With, _ast.AugAssign, _ast.ExceptHandler)):
+                out.add(("loop", st))
+            else:
+                out.add(("unknown", name))
+    return out
+
+
+def _sources_of_target(f, g, tg, value, name, st, module, depth, seen):
+    import ast as _ast
+    if isinstance(tg, _ast.Name):
+        return _sources_of_expr(f, g, value, st, module, depth, seen) if tg.id == name else set()
+    if isinstance(tg, (_ast.Tuple, _ast.List)):
+        for i, el in enumerate(tg.elts):
+            if isinstance(el, _ast.Name) and el.id == name:
+                if isinstance(value, (_ast.Tuple, _ast.List)) and len(value.elts) == len(tg.elts):
+                    return _sources_of_expr(f, g, value.elts[i], st, module, depth, seen)
+                if isinstance(value, _ast.Name):
+                    out = set()
+                    for leaf in value_sources(f, g, value.id, st, module, depth + 1, seen):
+                        if leaf[0] == "expr" and isinstance(leaf[1], (_ast.Tuple, _ast.List)) and i < len(leaf[1].elts):
+                            out |= _sources_of_expr(f, g, leaf[1].elts[i], _stmt_holding(module, leaf[1]) or st, module, depth + 1, seen)
+                        elif leaf[0] == "expr":
+                            out.add(("elem", leaf[1], i))
+                        else:
+                            out.add(("unknown", name))
+                    return out
+                return {("elem", value, i)}
+    return set()
+
+
+def _stmt_holding(module, node):
+    p = node
+    import ast as _ast
+    while p is not None and not isinstance(p, _ast.stmt):
+        p = module.parent.get(p)
+    return p
+
+
+def _sources_of_expr(f, g, e, st, module, depth, seen):
+    import ast as _ast
+    if isinstance(e, _ast.Name):
+        return value_sources(f, g, e.id, st, module, depth + 1, seen)
+    if isinstance(e, _ast.IfExp):
+        return _sources_of_expr(f, g, e.body, st, module, depth, seen) | _sources_of_expr(f, g, e.orelse, st, module, depth, seen)
+    return {("expr", e)}
